@@ -32,6 +32,37 @@ pub fn plant(r: &GenRule, variant: usize) -> Option<GenRule> {
     Some(p)
 }
 
+/// condensed rules whose alternatives are of different types (insertion next to substitution / deletion /
+/// metathesis), each alternative with its own output and its own or a shared context; /ɮ/ planted in the
+/// input of every non-insertion alternative and in the context of every insertion alternative
+pub fn mixed_condensed() -> Vec<String> {
+    let alts = ["*", "a", "t", "C", "V", "{p,a}", "%", "$", "C=1"];
+    let outs_ins = ["i", "t", "⟨ta⟩"];
+    let outs_other = ["i", "t", "[+voice]", "*", "&"];
+    // environments as (before, after); the planted segment goes to the far end of the after side (variant 0) or of the before side (variant 1)
+    let envs: [(&str, &str); 5] = [("", "t"), ("a", ""), ("", "#"), ("#", ""), ("a", "t")];
+    let mut v = vec![];
+    for a1 in alts { for a2 in alts {
+        if a1 != "*" && a2 != "*" { continue; }
+        let o1s: &[&str] = if a1 == "*" { &outs_ins } else { &outs_other };
+        let o2s: &[&str] = if a2 == "*" { &outs_ins } else { &outs_other };
+        for o1 in o1s { for o2 in o2s { for variant in 0..2 {
+            let inp = |a: &str| if a == "*" { "*".to_string() } else if variant == 0 { format!("{} {}", a, PLANT) } else { format!("{} {}", PLANT, a) };
+            let env = |a: &str, e: &(&str, &str)| -> String {
+                if a != "*" { return format!("{} _ {}", e.0, e.1).trim().to_string(); }
+                if variant == 0 { if e.1 == "#" { format!("{} _ {} #", e.0, PLANT) } else { format!("{} _ {} {}", e.0, e.1, PLANT) } }
+                else if e.0 == "#" { format!("# {} _ {}", PLANT, e.1) } else { format!("{} {} _ {}", PLANT, e.0, e.1) }
+            };
+            for e1 in &envs { for e2 in &envs {
+                v.push(format!("{}, {} > {}, {} / {}, {}", inp(a1), inp(a2), o1, o2, env(a1, e1).trim(), env(a2, e2).trim()));
+            } }
+            // one shared context: it serves the insertion alternative, so it carries the plant
+            for e in &envs { v.push(format!("{}, {} > {}, {} / {}", inp(a1), inp(a2), o1, o2, env("*", e).trim())); }
+        } } }
+    } }
+    v
+}
+
 pub fn decorated_words(thorough: bool) -> Vec<(String, CW)> {
     let mut out: Vec<(String, CW)> = vec![];
     for t in rulegen::WC { if let Out::Ok(Ok(w)) = guarded(1_000_000, || av::parse_word(t, None)) { out.push((t.to_string(), cw_of(&w))); } }
@@ -73,7 +104,7 @@ fn eval_text(text: &str, words: &[(String, CW)], a: &mut Acc) {
 pub fn run() -> i32 {
     let mut r = Report::new("C06");
     let n = if r.thorough() { 4 } else { 3 };
-    r.rule = format!("every rule of rulegen({}) (full documented grammar: sets, optionals, ellipses, structures, variables, alphas, environment sets, special environment, condensed rules) (quick: plus every insertion rule of size 4) with a mandatory literal /ɮ/ planted in every input alternative (insertion: in every context environment), at the end, at the start and before the last input item; plus blank and comment-only lines; x hand-shaped words{}; whenever the call returns Ok the structural word must equal the input. Non-trivial = rule compiled and the call returned Ok.", n, if r.thorough() { " and all decorated words of W(I4,3)" } else { "" });
+    r.rule = format!("every rule of rulegen({}) (full documented grammar: sets, optionals, ellipses, structures, variables, alphas, environment sets, special environment, condensed rules) (quick: plus every insertion rule of size 4) with a mandatory literal /ɮ/ planted in every input alternative (insertion: in every context environment), at the end, at the start and before the last input item; plus every condensed rule that pairs an insertion alternative with an insertion / substitution / deletion / metathesis alternative over 9 inputs x 3-5 outputs x 5 environments (own or shared), planted likewise; plus blank and comment-only lines; x hand-shaped words{}; whenever the call returns Ok the structural word must equal the input. Non-trivial = rule compiled and the call returned Ok.", n, if r.thorough() { " and all decorated words of W(I4,3)" } else { "" });
     r.assumptions.push("thorough: size-4 rules are restricted to those containing a structure, %, $, an ellipsis, an optional, a variable, or an insertion/deletion/metathesis output (the cursor-logic constructs); all size <= 3 rules are included".into());
     let words = decorated_words(r.thorough());
     let mut bases = rulegen::bases_upto(n);
@@ -95,6 +126,15 @@ pub fn run() -> i32 {
             }
         }
     }, |a| { tot.evals += a.evals; tot.ok_same += a.ok_same; tot.errs += a.errs; tot.rejected += a.rejected; tot.crashed += a.crashed; tot.viols.extend(a.viols); for (k, v) in a.kinds { *tot.kinds.entry(k).or_insert(0) += v; } });
+    // condensed rules that mix rule types
+    let mixed = mixed_condensed();
+    let before_mixed = tot.ok_same;
+    let mut mt = acc();
+    par_fold(mixed.len(), 64, acc, |i, a| eval_text(&mixed[i], &words, a), |a| { mt.evals += a.evals; mt.ok_same += a.ok_same; mt.errs += a.errs; mt.rejected += a.rejected; mt.crashed += a.crashed; mt.viols.extend(a.viols); });
+    r.boxes.push(json!({"box": "condensed rules mixing insertion with substitution / deletion / metathesis alternatives, planted", "rules": mixed.len(), "applications": mt.evals, "ok_unchanged": mt.ok_same, "runtime_errors": mt.errs, "rejected": mt.rejected, "crashed": mt.crashed}));
+    r.guard(mt.ok_same > 100_000, "mixed condensed rules: more than 100k applications returned Ok");
+    tot.evals += mt.evals; tot.ok_same += mt.ok_same; tot.errs += mt.errs; tot.rejected += mt.rejected; tot.crashed += mt.crashed; tot.viols.extend(mt.viols);
+    let _ = before_mixed;
     // blank and comment-only lines
     for t in ["", "   ", ";; only a comment", "  ;; indented comment"] { eval_text(t, &words, &mut tot); }
     r.evaluations = tot.evals; r.transitions = tot.evals; r.validated = tot.ok_same; r.nontrivial = tot.ok_same;
